@@ -11,6 +11,11 @@
    larger constants (more names, sectors, peers, every invalid request form)
    are replayed as raw CoAP datagrams against a real server Context carrying
    StandaloneResourceDirectory on the fake network under virtual time.
+   Simple registrations (the driver plays the registrant whose
+   /.well-known/core the directory fetches), filtered and paged lookups on
+   both lookup interfaces (criteria chosen by the model from a per-run
+   constant and, randomised, by the check), exotic lifetimes and clock jumps
+   to far deadlines are part of these histories.
 4. code -> spec: every recorded trace is validated by TLC against
    ResourceDirectoryTrace.tla, which keeps its own book of successful writes
    and evaluates the clauses at every step of the real execution.  Only a
@@ -28,13 +33,22 @@ from harness import tlc, MachineryError, runner
 GRACE_Q = 1  # Registration.grace_period = 15 s = 1 quantum (checked against the code at run time)
 DEFAULT_LT_Q = 6000  # 90000 s
 
-WRAP = """---- MODULE RD_run ----
+WRAP = """---- MODULE %(mod)s ----
 EXTENDS ResourceDirectory
 def_RegProfiles == %(reg)s
 def_UpdProfiles == %(upd)s
 def_PutProfiles == %(put)s
+def_SRegProfiles == %(sreg)s
+def_Filters == %(filters)s
 ====
 """
+
+VOCAB_MOD = """---- MODULE RD_vocab ----
+EXTENDS ResourceDirectoryObs
+ASSUME PrintT(<<"VOCAB", VocabDump>>)
+====
+"""
+VOCAB_CFG = "CONSTANTS\n  Grace = %d\n  DefaultLt = %d\n"
 
 CFG = """SPECIFICATION %(spec)s
 CONSTANTS
@@ -46,9 +60,14 @@ CONSTANTS
   RegProfiles <- def_RegProfiles
   UpdProfiles <- def_UpdProfiles
   PutProfiles <- def_PutProfiles
+  SRegProfiles <- def_SRegProfiles
+  Filters <- def_Filters
+  Counts = %(counts)s
+  MaxLk = %(maxlk)d
   RegVars = %(regvars)s
   UpdVars = %(updvars)s
   PutVars = %(putvars)s
+  SRegVars = %(sregvars)s
   Adv = %(adv)s
   MaxTime = %(maxtime)d
   MaxOps = %(maxops)d
@@ -63,90 +82,249 @@ INVARIANT Inv_OnePerKey
 INVARIANT Inv_ReRegisterKeepsLocation
 INVARIANT Inv_LocationsDistinct
 INVARIANT Inv_FailedWriteChangesNothing
+INVARIANT Inv_FilteredLookupExact
+INVARIANT Inv_PagingPartitions
 INVARIANT IndexesAgree
 INVARIANT BookAgrees
 """
 HYP_TAIL = "VIEW View\nINVARIANT ReportBad\n"
 SIM_TAIL = "INVARIANT NoBad\nINVARIANT ReportHist\n"
 
-ALL_HYP = '{"RegDeleteBeforeValidate", "UpdMutateBeforeBodyCheck"}'
+ALL_HYP = '{"RegDeleteBeforeValidate", "UpdMutateBeforeBodyCheck", "SimpleRegBeforeFetch"}'
+
+
+def tla_str(x):
+    if not x.isascii() or "\\" in x or '"' in x:
+        raise MachineryError("string %r cannot be written as a TLA+ literal here" % (x,))
+    return '"%s"' % x
 
 
 def tla_set(xs):
-    return "{" + ", ".join(json.dumps(x) if isinstance(x, str) else str(x) for x in xs) + "}"
+    return "{" + ", ".join(tla_str(x) if isinstance(x, str) else str(x) for x in xs) + "}"
 
 
 def tla_recs(recs):
     return "{" + ", ".join("[" + ", ".join("%s |-> %d" % kv for kv in r.items()) + "]" for r in recs) + "}"
 
 
-def P(lt, base, x, links=None):
-    d = {"lt": lt, "base": base, "x": x}
+def tla_crit(c):
+    return "[k |-> %s, v |-> %s, w |-> %d, loc |-> %d]" % (tla_str(c["k"]), tla_str(c.get("v", "")), int(c.get("w", 0)), c.get("loc", 0))
+
+
+def tla_filters(fs):
+    return "{" + ", ".join("<<" + ", ".join(tla_crit(c) for c in f) + ">>" for f in fs) + "}"
+
+
+def P(lt, lx, base, x, links=None):
+    d = {"lt": lt, "lx": lx, "base": base, "x": x}
     if links is not None:
         d["links"] = links
     return d
 
 
-# exhaustive configuration: 2 names x 2 sectors, lt 60 s / 120 s, one request form per handler stage
+def S(lt, lx, x, links):
+    return {"lt": lt, "lx": lx, "x": x, "links": links}
+
+
+def C(k, v="", w=0, loc=0):
+    return {"k": k, "v": v, "w": w, "loc": loc}
+
+
+# exhaustive configuration: 2 names x 2 sectors, lt 60 s / 120 s, one request form per handler stage; the simple
+# registration has the parameters of the first registration profile (same states, other handler)
 MC = dict(
     srcs=[1], eps=["e1", "e2"], ds=["", "s1"],
-    reg=[P(4, 0, 0, 1), P(8, 1, 1, 2)],
-    upd=[P(0, 0, 0), P(8, 1, 1)],
-    put=[P(0, 0, 1, 2)],
-    regvars=["ok", "noep", "ltnan"], updvars=["ok", "ep", "body"], putvars=["ok", "nocf"],
+    reg=[P(4, 0, 0, 0, 1), P(8, 0, 1, 1, 2)],
+    upd=[P(0, 0, 0, 0), P(8, 0, 1, 1)],
+    put=[P(0, 0, 0, 1, 2)],
+    sreg=[S(4, 0, 0, 1)],
+    regvars=["ok", "noep", "ltnan"], updvars=["ok", "ep", "body"], putvars=["ok", "nocf"], sregvars=["ok", "fetch404"],
+    filters=[[C("ep", "e1"), C("rt", "r1")], [C("href", loc=1)], [C("rt", "r", 1), C("et", "v1")]],
+    counts=[1], maxlk=0,
     adv=[1], maxtime=11,
 )
 # thorough tier, 4 requests: the request forms that fail before anything could change are left to the 3-request run
-MC4 = dict(MC, maxtime=9, regvars=["ok", "ltnan"], updvars=["ok", "body"], putvars=["ok"])
+MC4 = dict(MC, maxtime=9, regvars=["ok", "ltnan"], updvars=["ok", "body"], putvars=["ok"], sregvars=["ok"],
+           filters=[[C("ep", "e1"), C("rt", "r1")]])
+# exotic lifetimes (1 s, 59 s, 0, negative) and the clock jumping to a far deadline, exhaustively for one name
+MCX = dict(
+    srcs=[1], eps=["e1"], ds=["", "s1"],
+    reg=[P(0, 4, 0, 0, 1), P(0, 5, 1, 1, 2), P(0, 3, 0, 0, 1), P(0, 6, 0, 0, 1), P(0, 8, 0, 0, 3), P(0, 0, 0, 0, 1)],
+    upd=[P(0, 0, 0, 0), P(0, 7, 0, 0), P(0, 9, 0, 0)],
+    put=[P(0, 0, 0, 1, 2)],
+    sreg=[S(0, 4, 0, 1)],
+    regvars=["ok", "ltnan"], updvars=["ok", "body"], putvars=["ok"], sregvars=["ok"],
+    filters=[[C("rt", "r1")]], counts=[0], maxlk=0,
+    adv=[1], maxtime=7,
+)
 # simulation: more of everything, every request form
 SIM = dict(
-    srcs=[1, 2], eps=["e1", "e2", "e3"], ds=["", "s1", "s2"],
-    reg=[P(4, 0, 0, 1), P(8, 1, 1, 2), P(0, 0, 2, 3), P(4, 2, 0, 0), P(5, 0, 1, 2)],
-    upd=[P(0, 0, 0), P(8, 1, 1), P(4, 0, 2), P(0, 2, 0), P(5, 0, 0)],
-    put=[P(0, 0, 1, 2), P(4, 0, 0, 1), P(0, 1, 0, 3), P(8, 0, 0, 0)],
-    regvars=["ok", "ok", "nocf", "badcf", "badlf", "noep", "ep2", "d2", "proxy", "ltnan", "lt2", "base2",
+    srcs=[1, 2, 3], eps=["e1", "e2", "E1", "%65%31", "~nfc", "~nfd"], ds=["", "s1", "S1", "s%31"],
+    reg=[P(4, 0, 0, 0, 1), P(8, 0, 1, 1, 2), P(0, 0, 0, 2, 3), P(4, 0, 2, 0, 0), P(5, 0, 0, 1, 2),
+         P(0, 1, 0, 0, 4), P(0, 8, 3, 3, 4), P(0, 4, 0, 4, 6), P(0, 5, 4, 0, 6), P(6, 0, 3, 3, 5),
+         P(0, 6, 0, 0, 1), P(0, 2, 1, 0, 2), P(0, 3, 0, 1, 1), P(0, 7, 0, 0, 6), P(0, 9, 2, 4, 4),
+         P(4, 0, 0, 3, 4), P(8, 0, 3, 0, 6), P(5, 0, 0, 0, 5)],
+    upd=[P(0, 0, 0, 0), P(8, 0, 1, 1), P(4, 0, 0, 2), P(0, 0, 2, 0), P(5, 0, 0, 0),
+         P(0, 1, 0, 0), P(0, 4, 0, 3), P(0, 0, 3, 4), P(0, 7, 0, 0), P(0, 6, 0, 0), P(0, 0, 4, 0), P(0, 8, 0, 0)],
+    put=[P(0, 0, 0, 1, 2), P(4, 0, 0, 0, 1), P(0, 0, 1, 0, 3), P(8, 0, 0, 0, 0),
+         P(0, 0, 0, 3, 4), P(0, 0, 0, 0, 6), P(4, 0, 3, 0, 5), P(0, 8, 0, 4, 4)],
+    sreg=[S(4, 0, 0, 1), S(0, 0, 1, 2), S(8, 0, 3, 4), S(0, 4, 0, 6), S(5, 0, 2, 5), S(0, 8, 4, 3)],
+    regvars=["ok", "nocf", "badcf", "badlf", "noep", "ep2", "d2", "proxy", "ltnan", "lt2", "base2",
              "rsvd_rt", "rsvd_page", "rsvd_count", "rsvd_href", "rsvd_anchor", "ltnoval"],
     updvars=["ok", "ep", "d", "ltnan", "lt2", "base2", "rsvd_rt", "rsvd_page", "rsvd_count", "rsvd_href",
              "rsvd_anchor", "ltnoval", "body", "cfbody", "cf"],
     putvars=["ok", "nocf", "badlf", "ep", "ltnan", "rsvd_rt", "ltnoval"],
+    sregvars=["ok", "okwkc", "sbase", "fetch404", "fetchcf", "fetchbadlf", "noep", "ep2", "d2", "proxy", "ltnan", "lt2",
+              "rsvd_rt", "rsvd_count", "ltnoval"],
+    counts=[0, 0, 1, 2, 3, 7], maxlk=3,
     adv=[1, 2, 3, 4, 5], maxtime=24,
 )
+# keys a search criterion is never built for: the statement of C20 does not settle how they match
+# (base and rt=core.rd-ep of the endpoint entry; rel / rev as relation-types; lt), or the key has no value (obs)
+NO_CRIT_KEYS = {"base", "rev", "lt", "obs", "anchor-implied"}
+
+
+def random_criteria(rng, vocab, names, sectors, nreg):
+    """One set of search criteria (1..3, ANDed) over the vocabulary TLC printed:
+    registration parameters, link attributes, resolved targets and anchors;
+    exact values, prefixes with `*', values that match nothing, one key twice,
+    a registration resource as href."""
+    attrs = sorted(tuple(a) for a in vocab["attrs"] if a[0] not in NO_CRIT_KEYS)
+    hrefs = sorted(vocab["hrefs"])
+    ancs = sorted(vocab["ancs"] | vocab["imps"])
+
+    def one():
+        r = rng.random()
+        if r < 0.16:
+            k, v = "ep", rng.choice(names)
+        elif r < 0.26:
+            k, v = "d", rng.choice([x for x in sectors if x] or ["s1"])
+        elif r < 0.60:
+            k, v = rng.choice(attrs)
+            if " " in v and k in ("rt", "if") and rng.random() < 0.8:
+                v = rng.choice(v.split(" "))
+        elif r < 0.78:
+            k, v = "href", rng.choice(hrefs)
+        elif r < 0.86:
+            k, v = "anchor", rng.choice(ancs)
+        else:
+            return C("href", loc=rng.randint(1, max(1, nreg)))
+        r = rng.random()
+        if r < 0.30 and len(v) > 1:
+            return C(k, v[: rng.randint(1, len(v) - 1)], 1)
+        if r < 0.36:
+            return C(k, v, 1)
+        if r < 0.44:
+            return C(k, v + "z")
+        return C(k, v)
+
+    n = rng.choice([1, 1, 2, 2, 2, 3])
+    crit = [one() for _ in range(n)]
+    if n >= 2 and rng.random() < 0.15 and not crit[0]["loc"] and not crit[1]["loc"]:
+        crit[1] = dict(crit[1], k=crit[0]["k"])          # the same key twice
+    return crit
+
+
+def model_filters(rng, vocab, n):
+    """The constant Filters of the simulated model: criteria sets over ASCII names."""
+    out, seen = [], set()
+    while len(out) < n:
+        f = random_criteria(rng, vocab, ["e1", "e2", "E1", "%65%31"], ["s1", "S1", "s%31"], 3)
+        key = json.dumps(f, sort_keys=True)
+        if key not in seen and all(c["v"].isascii() for c in f):
+            seen.add(key)
+            out.append(f)
+    return out
 
 
 def write_cfg(wd, name, c, maxops, hyp, tail):
-    wd.write("RD_run.tla", WRAP % dict(reg=tla_recs(c["reg"]), upd=tla_recs(c["upd"]), put=tla_recs(c["put"])))
+    wd.write(name + ".tla", WRAP % dict(mod=name, reg=tla_recs(c["reg"]), upd=tla_recs(c["upd"]), put=tla_recs(c["put"]),
+                                      sreg=tla_recs(c["sreg"]), filters=tla_filters(c["filters"])))
     wd.write(
-        name,
+        name + ".cfg",
         CFG
         % dict(
             grace=GRACE_Q, deflt=DEFAULT_LT_Q, srcs=tla_set(c["srcs"]), eps=tla_set(c["eps"]), ds=tla_set(c["ds"]),
             regvars=tla_set(sorted(set(c["regvars"]))), updvars=tla_set(sorted(set(c["updvars"]))),
-            putvars=tla_set(sorted(set(c["putvars"]))), adv=tla_set(c["adv"]), maxtime=c["maxtime"],
+            putvars=tla_set(sorted(set(c["putvars"]))), sregvars=tla_set(sorted(set(c["sregvars"]))),
+            counts=tla_set(sorted(set(c["counts"]))), maxlk=c["maxlk"] if tail is SIM_TAIL else 0,
+            adv=tla_set(c["adv"]), maxtime=c["maxtime"],
             maxops=maxops, hyp=hyp, tail=tail, spec="SimSpec" if tail is SIM_TAIL else "Spec", keephist="FALSE" if tail is MC_TAIL else "TRUE",
         ),
     )
 
 
-STEP_KEYS = ("k", "t", "src", "ep", "d", "loc", "lt", "base", "x", "links", "var", "n", "cls")
+def get_vocab(wd):
+    """The vocabulary tables of spec/ResourceDirectoryVocab.tla as TLC evaluates them."""
+    wd.write("RD_vocab.tla", VOCAB_MOD)
+    wd.write("RD_vocab.cfg", VOCAB_CFG % (GRACE_Q, DEFAULT_LT_Q))
+    r = tlc.run(wd, "RD_vocab.tla", "RD_vocab.cfg", workers=1, timeout=300)
+    tlc.need_ok_run(r, "ResourceDirectoryVocab evaluation")
+    vals = tlc.printed_values(r, "VOCAB")
+    if len(vals) != 1:
+        raise MachineryError("ResourceDirectoryVocab: no VOCAB line\n%s" % r.out[-2000:])
+    return vals[0][1]
+
+
+STEP_KEYS = ("k", "t", "src", "ep", "d", "loc", "lt", "lx", "base", "x", "links", "var", "n", "cls", "iface", "crit", "cnt")
 
 
 def hist_to_history(hist):
     """TLC value of the model's `hist' -> replayable history (plus the model's
     predicted response class / location per request)."""
+    from harness.rddrive import NAME_WIRE
+
     steps = []
     at = {}  # model location -> id of the registration step that holds it
     for i, h in enumerate(hist):
         st = {k: h[k] for k in STEP_KEYS}
         st["id"] = i
-        if st["k"] == "reg" and st["cls"] == 2:
+        st["ep"] = NAME_WIRE.get(st["ep"], st["ep"])
+        st["d"] = NAME_WIRE.get(st["d"], st["d"])
+        if st["k"] in ("reg", "sreg") and st["cls"] == 2:
             at[st["loc"]] = i
         elif st["k"] in ("upd", "put", "del"):
             # the location is meant as "the one that registration got", whatever its name
             st["ref"] = at.get(st["loc"])
             if st["ref"] is None:
                 del st["ref"]
+        if st["k"] == "flk":
+            crit = []
+            for c in st["crit"]:
+                c = dict(c)
+                if c["loc"] and c["loc"] in at:
+                    c["ref"] = at[c["loc"]]
+                crit.append(c)
+            st["crit"] = crit
+        else:
+            st["crit"] = []
         steps.append(st)
     return {"steps": steps}
+
+
+def add_random_lookups(h, rng, vocab):
+    """Filtered / paged lookups at random places of a history (seeded): after a
+    request with probability 1/2, after a clock step with probability 1/4."""
+    out = []
+    regs = []
+    names, sectors = set(), set()
+    for st in h["steps"]:
+        out.append(st)
+        if st["k"] in ("reg", "sreg"):
+            if st.get("id") is not None:
+                regs.append(st["id"])
+            names.add(st["ep"] or "e1")
+            sectors.add(st["d"])
+        if st["k"] == "flk" or not names:
+            continue
+        if rng.random() < (0.25 if st["k"] == "adv" else 0.5):
+            crit = random_criteria(rng, vocab, sorted(names), sorted(sectors), 3)
+            for c in crit:
+                if c["loc"] and regs and rng.random() < 0.8:
+                    c["ref"] = rng.choice(regs)
+            out.append({"k": "flk", "t": st["t"], "iface": rng.choice(["ep", "res"]), "crit": crit,
+                        "cnt": rng.choice([0, 0, 0, 1, 2, 3, 7])})
+    return {"steps": out}
 
 
 def _dbg(msg, _t=[None]):
@@ -164,12 +342,27 @@ def _run(h):
     warnings.simplefilter("ignore")
     from harness.rddrive import run_history
 
+    import signal
+
+    def stuck(*a):
+        raise TimeoutError("history not finished after 300 s of real time")
+
+    signal.signal(signal.SIGALRM, stuck)
+    signal.alarm(300)
     try:
         return run_history(h)
     except Exception:
         import traceback
 
         return {"error": traceback.format_exc()}
+    finally:
+        signal.alarm(0)
+
+
+def _init_worker(vocab):
+    from harness import rddrive
+
+    rddrive.set_vocab(vocab)
 
 
 def run_all(hists, pool):
@@ -208,8 +401,10 @@ def validate(wd, traces, timeout=900):
 
 
 def grp(st):
-    from harness.rddrive import GROUPS
+    from harness.rddrive import GROUPS, flk_group
 
+    if st["k"] == "flk":
+        return flk_group(st)
     return GROUPS[st["k"]][st.get("var") or "ok"]
 
 
@@ -236,7 +431,7 @@ SWEEP = 12  # quanta looked at after the last request of a canonical candidate (
 
 
 def adv_step(t):
-    return {"k": "adv", "t": t, "src": 0, "ep": "", "d": "", "loc": 0, "lt": 0, "base": 0, "x": 0, "links": 0, "var": "", "n": 1, "cls": 0}
+    return {"k": "adv", "t": t, "src": 0, "ep": "", "d": "", "loc": 0, "lt": 0, "lx": 0, "base": 0, "x": 0, "links": 0, "var": "", "n": 1, "cls": 0}
 
 
 def _ops_subsets(n, kmax):
@@ -314,13 +509,14 @@ def minimise_all(wd, pool, items, kmax=3):
 def compare_with_model(history, events):
     """Model-predicted response class / location of every request vs. the real
     one (DRIFT only)."""
-    ops = [e for e in events if e["k"] in ("reg", "upd", "put", "del")]
-    steps = [s for s in history["steps"] if s["k"] != "adv"]
+    ops = [e for e in events if e["k"] in ("reg", "sreg", "upd", "put", "del")]
+    steps = [s for s in history["steps"] if s["k"] not in ("adv", "flk")]
     for s, e in zip(steps, ops):
         if s.get("cls") in (None, 0) or s.get("var") == "ltnoval":
             continue  # lt without a value: the statement does not say which error class
         if s["cls"] != e["cls"]:
-            return "%s:%s answered %d.%02d, model predicts class %d" % (s["k"], s.get("var"), e["code"] >> 5, e["code"] & 31, s["cls"])
+            return "%s:%s (lt=%s lx=%s base=%s x=%s src=%s) answered %d.%02d, model predicts class %d" % (
+                s["k"], s.get("var"), s.get("lt"), s.get("lx"), s.get("base"), s.get("x"), s.get("src"), e["code"] >> 5, e["code"] & 31, s["cls"])
         if s["k"] == "reg" and s["cls"] == 2 and s["loc"] != e["loc"]:
             return "reg:%s got location #%d (order of first appearance), model predicts #%d" % (s.get("var"), e["loc"], s["loc"])
     return None
@@ -341,12 +537,46 @@ def check_grace():
     return g // QUANTUM
 
 
+def clause_evaluations(traces, verdicts):
+    """How often each clause was evaluated by TLC on real executions: the
+    clauses are functions of the event kind (ObsEvent), the monitor stops at
+    the first event at which one is false."""
+    per = {
+        "reg": ["C20_ReRegisterKeepsLocation"], "sreg": [],
+        "lkep": ["C20_LookupsAreLive", "C20_FailedWriteChangesNothing", "C20_OnePerKey", "C20_LocationsDistinct", "C20_ReRegisterKeepsLocation"],
+        "lkres": ["C20_LookupsAreLive", "C20_FailedWriteChangesNothing"],
+        "flk": ["C20_FilteredLookupExact"],
+    }
+    n = {}
+    for ev, v in zip(traces, verdicts):
+        upto = v["firstBad"] or len(ev)
+        for e in ev[:upto]:
+            for c in per.get(e["k"], ()):
+                n[c] = n.get(c, 0) + 1
+            if e["k"] == "flk" and e["cnt"] and e["cls"] == 2:
+                n["C20_PagingPartitions"] = n.get("C20_PagingPartitions", 0) + 1
+    return n
+
+
 def work(rep, args):
     global GRACE_Q
+    from concurrent.futures import ThreadPoolExecutor
+    from harness import rddrive
+
     quick = args.tier == "quick"
     seed = args.seed
     GRACE_Q = check_grace()
-    with tlc.Workdir() as wd, Pool(min(16, os.cpu_count() or 4)) as pool:
+    with tlc.Workdir() as wd:
+        vocab = get_vocab(wd)
+        rddrive.set_vocab(vocab)
+        _dbg("vocabulary: %d link sets, %d criterion values" % (len(vocab["links"]), len(vocab["attrs"]) + len(vocab["hrefs"]) + len(vocab["ancs"])))
+        with Pool(min(16, os.cpu_count() or 4), initializer=_init_worker, initargs=(vocab,)) as pool:
+            return _work(rep, args, wd, pool, vocab, quick, seed, ThreadPoolExecutor)
+
+
+def _work(rep, args, wd, pool, vocab, quick, seed, ThreadPoolExecutor):
+        from harness import rddrive
+
         if args.replay:
             data = json.load(open(args.replay))
             h = data["replay"]["history"]
@@ -366,29 +596,48 @@ def work(rep, args):
             rep.coverage["last_replay"] = {"file": args.replay, "clauses_false": sorted(verdicts[0]["bad"])}
             return
 
-        # 1. exhaustive: the design (validate before mutate) satisfies every clause
-        mc_ops = 3
-        write_cfg(wd, "RD_mc.cfg", MC, mc_ops, "{}", MC_TAIL)
-        mc = tlc.run(wd, "RD_run.tla", "RD_mc.cfg", timeout=600)
+        rng = random.Random(seed)
+        nsim = 150 if quick else 6000
+        sim_ops = 10
+        sim_c = dict(SIM, filters=model_filters(rng, vocab, 40 if quick else 120))
+        mc_ops, mcx_ops = 3, (2 if quick else 3)
+        # quick: the filtered lookups of the exhaustive model are left to the thorough tier (they triple the transitions)
+        mc_c = dict(MC, filters=[], maxtime=9) if quick else MC
+        # the TLC runs do not depend on each other: 1. exhaustive, the design (validate before mutate) satisfies
+        # every clause; 1x. the same for exotic lifetimes and far deadlines; 2. exhaustive with the order
+        # hypotheses: candidate histories; 3. behaviours of the model with larger constants
+        write_cfg(wd, "RD_mc", mc_c, mc_ops, "{}", MC_TAIL)
+        write_cfg(wd, "RD_mcx", MCX, mcx_ops, "{}", MC_TAIL)
+        write_cfg(wd, "RD_hyp", MC, 2 if quick else 3, ALL_HYP, HYP_TAIL)
+        write_cfg(wd, "RD_sim", sim_c, sim_ops, "{}", SIM_TAIL)
+        with ThreadPoolExecutor(4) as tp:
+            f_mc = tp.submit(tlc.run, wd, "RD_mc.tla", "RD_mc.cfg", timeout=900)
+            f_mcx = tp.submit(tlc.run, wd, "RD_mcx.tla", "RD_mcx.cfg", workers=2 if quick else 8, timeout=900)
+            f_hyp = tp.submit(tlc.run, wd, "RD_hyp.tla", "RD_hyp.cfg", workers=1 if quick else 8, timeout=600 if quick else 1800)
+            f_sim = tp.submit(tlc.run, wd, "RD_sim.tla", "RD_sim.cfg", workers=1, timeout=600 if quick else 2400,
+                              simulate="num=%d" % nsim, depth=sim_ops + SIM["maxtime"] + SIM["maxlk"] + 8, seed=seed + 1)
+            mc, mcx, hyp, sim = f_mc.result(), f_mcx.result(), f_hyp.result(), f_sim.result()
         tlc.need_ok_run(mc, "ResourceDirectory model check")
+        tlc.need_ok_run(mcx, "ResourceDirectory model check, exotic lifetimes")
+        tlc.need_ok_run(hyp, "ResourceDirectory model check with order hypotheses")
+        tlc.need_ok_run(sim, "ResourceDirectory simulation")
+        _dbg("mc done: %s" % mc.summary())
+        _dbg("mcx done: %s" % mcx.summary())
+        _dbg("hyp done: %s" % hyp.summary())
+        _dbg("sim done: %s" % sim.summary())
+        for r, what in ((mc, "3 requests"), (mcx, "exotic lifetimes")):
+            if r.violated:
+                raise MachineryError("ResourceDirectory model (%s) with Hyp = {} violates %s: the specification is inconsistent\n%s"
+                                     % (what, r.violated, r.out[-3000:]))
         mc4 = None
-        if not quick and not mc.violated:
-            write_cfg(wd, "RD_mc4.cfg", MC4, 4, "{}", MC_TAIL)
-            mc4 = tlc.run(wd, "RD_run.tla", "RD_mc4.cfg", timeout=2400)
+        if not quick:
+            write_cfg(wd, "RD_mc4", MC4, 4, "{}", MC_TAIL)
+            mc4 = tlc.run(wd, "RD_mc4.tla", "RD_mc4.cfg", timeout=3000)
             tlc.need_ok_run(mc4, "ResourceDirectory model check, 4 requests")
             _dbg("mc4 done: %s" % mc4.summary())
             if mc4.violated:
                 raise MachineryError("ResourceDirectory model (4 requests) with Hyp = {} violates %s: the specification is inconsistent\n%s"
                                      % (mc4.violated, mc4.out[-3000:]))
-        _dbg("mc done: %s" % mc.summary())
-        if mc.violated:
-            raise MachineryError("ResourceDirectory model with Hyp = {} violates %s: the specification is inconsistent\n%s"
-                                 % (mc.violated, mc.out[-3000:]))
-        # 2. exhaustive with the order hypotheses: candidate histories
-        write_cfg(wd, "RD_hyp.cfg", MC, 2 if quick else 3, ALL_HYP, HYP_TAIL)
-        hyp = tlc.run(wd, "RD_run.tla", "RD_hyp.cfg", timeout=300 if quick else 1200)
-        tlc.need_ok_run(hyp, "ResourceDirectory model check with order hypotheses")
-        _dbg("hyp done: %s" % hyp.summary())
         cands = {}
         for v in tlc.printed_values(hyp, "BAD"):
             _, bad, blame, hist = v
@@ -397,18 +646,9 @@ def work(rep, args):
             if key not in cands or len(h["steps"]) < len(cands[key]["steps"]):
                 cands[key] = h
         cand_hists = [cands[k] for k in sorted(cands)]
-        rng = random.Random(seed)
         max_cands = 150 if quick else 2000
         if len(cand_hists) > max_cands:
             cand_hists = rng.sample(cand_hists, max_cands)
-        # 3. behaviours of the model with larger constants
-        nsim = 300 if quick else 6000
-        sim_ops = 10
-        write_cfg(wd, "RD_sim.cfg", SIM, sim_ops, "{}", SIM_TAIL)
-        sim = tlc.run(wd, "RD_run.tla", "RD_sim.cfg", workers=1, timeout=600 if quick else 1800,
-                      simulate="num=%d" % nsim, depth=sim_ops + SIM["maxtime"] + 2, seed=seed + 1)
-        tlc.need_ok_run(sim, "ResourceDirectory simulation")
-        _dbg("sim done: %s" % sim.summary())
         if sim.violated:
             raise MachineryError("simulation of the Hyp = {} model violates %s" % sim.violated)
         sim_hists = []
@@ -418,7 +658,7 @@ def work(rep, args):
             key = json.dumps(h, sort_keys=True)
             if key not in seen and h["steps"]:
                 seen.add(key)
-                sim_hists.append(h)
+                sim_hists.append(add_random_lookups(h, random.Random(seed * 1000003 + len(sim_hists)), vocab))
         if len(sim_hists) < nsim // 4:
             raise MachineryError("simulation produced only %d finished behaviours of %d" % (len(sim_hists), nsim))
         all_hists = cand_hists + sim_hists
@@ -436,8 +676,10 @@ def work(rep, args):
                 ev = traces[i]
                 trig = ""
                 for e in ev[: v["firstBad"]]:
-                    if e["k"] in ("reg", "upd", "put", "del"):
+                    if e["k"] in ("reg", "sreg", "upd", "put", "del"):
                         trig = "%s:%s" % (e["k"], e["vg"])
+                if clause in ("C20_FilteredLookupExact", "C20_PagingPartitions"):
+                    trig = "flk:" + rddrive_group(ev[v["firstBad"] - 1])
                 groups.setdefault((clause, trig), []).append(i)
         reproduced_cands = sum(1 for i in range(len(cand_hists)) if verdicts[i]["bad"])
         order = sorted(groups, key=lambda g: (-len(groups[g]), g))
@@ -466,11 +708,7 @@ def work(rep, args):
                 "responses: %s"
                 % (
                     clause, v1["firstBad"], len(groups[g]), len(all_hists), g[1], v1["blame"] or "-",
-                    "; ".join(
-                        ("adv->t=%d" % s["t"]) if s["k"] == "adv" else
-                        "%s(%s)" % (s["k"], ",".join("%s=%s" % (k, s[k]) for k in ("ep", "d", "loc", "lt", "base", "x", "links", "var") if s.get(k)))
-                        for s in small["steps"]
-                    ),
+                    "; ".join(describe_step(s) for s in small["steps"]),
                     ", ".join("%s->%d.%02d" % (e["k"], e["code"] >> 5, e["code"] & 31) for e in ops),
                 )
             )
@@ -500,33 +738,74 @@ def work(rep, args):
         kinds = {}
         forms = set()
         expiries = 0
+        flk = {"ep": 0, "res": 0, "by_criteria": {}, "paged": 0, "page_requests": 0, "entries_returned": 0, "empty_results": 0,
+               "criterion_keys": {}, "wildcards": 0, "registration_resource_as_href": 0, "model_chosen": 0, "randomised": 0}
+        lx_used, far_jumps, offgrid = set(), 0, 0
+        names = set()
+        maxlinks = 0
+        for h in all_hists:
+            for st in h["steps"]:
+                if st["k"] == "flk":
+                    flk["model_chosen" if "id" in st else "randomised"] += 1
         for ev in traces:
             prev = None
             for e in ev:
-                if e["k"] not in ("lkep", "lkres"):
+                if e["k"] not in ("lkep", "lkres", "flk"):
                     kinds[e["k"]] = kinds.get(e["k"], 0) + 1
                     forms.add((e["k"], e["var"], e["cls"]))
+                    if e["lx"]:
+                        lx_used.add((e["k"], e["lx"], e["cls"]))
+                    if e["k"] in ("reg", "sreg"):
+                        names.add((e["ep"], e["d"]))
                 if e["k"] == "lkep":
                     if prev is not None and e["n"] < prev[0] and e["t"] > prev[1]:
                         expiries += 1
+                        if e["t"] - prev[1] > 100:
+                            far_jumps += 1
                     prev = (e["n"], e["t"])
+                if e["k"] == "lkres":
+                    maxlinks = max(maxlinks, e["n"])
+                if e["k"] == "flk":
+                    flk[e["iface"]] += 1
+                    nc = str(len(e["crit"]))
+                    flk["by_criteria"][nc] = flk["by_criteria"].get(nc, 0) + 1
+                    flk["entries_returned"] += e["n"]
+                    flk["empty_results"] += e["n"] == 0
+                    for c in e["crit"]:
+                        flk["criterion_keys"][c["k"]] = flk["criterion_keys"].get(c["k"], 0) + 1
+                        flk["wildcards"] += c["w"]
+                        flk["registration_resource_as_href"] += c["loc"] != 0
+                    if e["cnt"]:
+                        flk["paged"] += 1
+                        flk["page_requests"] += len(e["pages"]) + 1
+        mcs = [("3 requests", mc_c, mc_ops, mc), ("exotic lifetimes", MCX, mcx_ops, mcx)] + ([("4 requests", MC4, 4, mc4)] if mc4 else [])
         rep.coverage.update(
             {
-                "states": mc.distinct + (mc4.distinct if mc4 else 0),
-                "transitions": mc.generated + (mc4.generated if mc4 else 0),
-                "depth": max(mc.depth, mc4.depth if mc4 else 0),
-                "mc_runs": [dict(constants=dict(MC, maxops=mc_ops), states=mc.distinct, transitions=mc.generated, wall_s=round(mc.wall, 1))]
-                + ([dict(constants=dict(MC4, maxops=4), states=mc4.distinct, transitions=mc4.generated, wall_s=round(mc4.wall, 1))] if mc4 else []),
+                "states": sum(r.distinct for _, _, _, r in mcs),
+                "transitions": sum(r.generated for _, _, _, r in mcs),
+                "depth": max(r.depth for _, _, _, r in mcs),
+                "mc_runs": [dict(what=w, constants=dict(c, maxops=o), states=r.distinct, transitions=r.generated, wall_s=round(r.wall, 1))
+                            for w, c, o, r in mcs],
                 "hypothesis_states": hyp.distinct,
                 "hypothesis_candidates": len(cand_hists),
                 "hypothesis_candidates_reproduced": reproduced_cands,
                 "simulated_behaviours": len(sim_hists),
-                "sim_constants": dict(SIM, maxops=sim_ops),
+                "sim_constants": dict(sim_c, maxops=sim_ops, filters=len(sim_c["filters"])),
                 "traces_validated_against_impl": len(traces),
                 "events_validated": sum(len(t) for t in traces),
+                "clause_evaluations_on_real_executions": clause_evaluations(traces, verdicts),
                 "requests_by_kind": kinds,
                 "distinct_request_forms_and_outcomes": len(forms),
+                "filtered_lookups": flk,
+                "simple_registration_fetches_answered": sum(r["meta"]["fetches"] for r in results),
+                "lookups_transferred_blockwise": sum(r["meta"]["blockwise_lookups"] for r in results),
+                "largest_resource_lookup_entries": maxlinks,
+                "exotic_lifetime_forms_and_outcomes": sorted("%s:lt=%s->%d" % (k, rddrive.VOCAB["lx"][i], c) for k, i, c in lx_used),
+                "distinct_registration_keys": len(names),
+                "registration_keys_outside_ascii_or_differing_in_case_or_percent": sorted(
+                    "%s/%s" % k for k in names if not (k[0] + k[1]).isascii() or "%" in k[0] + k[1] or (k[0] + k[1]).lower() != k[0] + k[1])[:12],
                 "lookups_that_observed_an_expiry": expiries,
+                "expiries_observed_after_a_clock_jump": far_jumps,
                 "traces_with_violation": sum(1 for v in verdicts if v["bad"]),
                 "model_predictions_compared": nclean,
                 "model_predictions_not_reproduced": ndrift,
@@ -535,18 +814,39 @@ def work(rep, args):
                     {"history": all_hists[-1], "events": traces[-1][:9]},
                     {"history": all_hists[0], "events": traces[0][:9]},
                 ],
-                "checker_cmd": "tlc RD_run(ResourceDirectory).tla exhaustive (Hyp={} and with order hypotheses) + -simulate; "
-                               "tlc ResourceDirectoryTrace.tla on recorded traces",
+                "checker_cmd": "tlc RD_*(ResourceDirectory).tla exhaustive (Hyp={} and with order hypotheses) + -simulate; "
+                               "tlc ResourceDirectoryTrace.tla on recorded traces; RFC 3986 5.4 examples as ASSUME",
             }
         )
         rep.assumptions += [
             "virtual-time event loop and fake UDP socket stand in for the OS (harness/vloop.py, fakenet.py)",
-            "requests are sent one at a time and answered before the next one (no concurrent requests)",
-            "one quantum = 15 s; lt in {60, 75, 120 s, absent}; only whole quanta are visited, including each deadline and the quantum before it",
+            "requests are sent one at a time and answered before the next one (no concurrent requests); the registrant of a "
+            "simple registration answers the directory's GET /.well-known/core at once",
+            "one quantum = 15 s; only whole quanta are visited, including each deadline and the quantum before it "
+            "(lifetimes with a remainder of seconds end between two visited instants)",
             "distinct registrations sharing a location is read as: at the same time (a freed location may be reused)",
-            "plain lookups only (no filters, no pagination); lookup payloads stay below one block",
+            "lookup filters: keys ep, d, registration and link attributes, href, anchor with exact values and trailing *; what the "
+            "statement does not settle is accepted either way (implicit anchors, base / rt=core.rd-ep of the endpoint entry, "
+            "rel / rev split at spaces) and such keys are not generated; page / count only with valid numbers",
+            "the driver's link-format and CoAP codecs (harness/rddrive.py, wire.py) are independent of aiocoap and trusted",
             "exhaustive model check uses the small constants in mc_runs; larger behaviours by simulation",
         ]
+
+
+def rddrive_group(e):
+    from harness.rddrive import flk_group
+
+    return flk_group(e)
+
+
+def describe_step(s):
+    if s["k"] == "adv":
+        return "adv->t=%d" % s["t"]
+    if s["k"] == "flk":
+        return "flk(%s %s%s)" % (s["iface"], "&".join(
+            "href=<loc %s>" % (c.get("ref", c["loc"]),) if c.get("loc") or c.get("ref") is not None else "%s=%s%s" % (c["k"], c["v"], "*" if c["w"] else "")
+            for c in s["crit"]), " count=%d" % s["cnt"] if s.get("cnt") else "")
+    return "%s(%s)" % (s["k"], ",".join("%s=%s" % (k, s[k]) for k in ("ep", "d", "loc", "lt", "lx", "base", "x", "links", "var") if s.get(k)))
 
 
 if __name__ == "__main__":
